@@ -2,7 +2,7 @@
     Statements only; the transition system is that of C01 (Model/Pipeline.v).  [decided] records the
     outcome of handle_select1_or_exit0: Accept (select-1 fires), Abort (exit-0 fires) or Interactive
     (the flags are dropped and the terminal is started). *)
-From SkimV Require Import Common.Base Model.Pipeline Proof.Pipeline Proof.PipelineLive.
+From SkimV Require Import Common.Base Gen.PipelineOrder Model.PipelineOrder Model.Pipeline Proof.Pipeline Proof.PipelineLive.
 
 (** Whenever a step takes the decision, in any reachable state of any interleaving: the source has
     ended, the reader's buffer has been moved, every pool item has been handed to a matcher, and no
@@ -49,6 +49,15 @@ Theorem c14_idle_is_quiescent : forall nres ncie mp source q0 a b c ls s,
   pc s = [] -> hbq s = 0 -> timer s = false -> prenotify s = false -> quiescent s.
 Proof. exact idle_is_quiescent. Qed.
 Print Assumptions c14_idle_is_quiescent.
+
+
+(** the code still has the skeleton the transition system stands for: in the decision, the heartbeat and the threads whose completion it reads, the
+    shared-state operations extracted from the Rust sources on this run (Gen/PipelineOrder.v) are
+    the ones, in the order, that the model's steps were written for (Model/PipelineOrder.v) *)
+Theorem c14_code_skeleton :
+  same_rows c14_rows code_order model_order = true.
+Proof. vm_compute. reflexivity. Qed.
+Print Assumptions c14_code_skeleton.
 
 (** Non-vacuity: one matching item of two, --select-1: the first heartbeat (matcher just spawned)
     and the second (matcher running) do not decide; the third harvests and accepts. *)
